@@ -24,7 +24,9 @@ type Opts struct {
 }
 
 var (
-	DefStrs = []string{"a", "b", "c", "d", "", "é", "a b", "x?y", "longer string", "!"}
+	// (the last few are strings that print like values of other types:
+	// "1" and 1, "true" and true, "<nil>" and null must never be confused)
+	DefStrs = []string{"a", "b", "c", "d", "", "é", "a b", "x?y", "longer string", "!", "1", "2.5", "true", "<nil>", "0"}
 	DefKeys = []string{"a", "b", "c", "d", "e", "k!", "", "to", "x y"}
 	DefNums = []float64{0, 1, 2, 3, -1, 0.5, 10, 2.5, 1e9, -7.25}
 	// PlantStrs / PlantNums are disjoint from the defaults; the
